@@ -25,49 +25,168 @@ theorem chswReset_zero (s : State) :
   unfold chswReset
   simp
 
+theorem chswReset_identified_deb (s : State) (id : Nat) (h : id ≠ 0) : (chswReset s id).1.deb = s.deb := by
+  unfold chswReset
+  simp [h]
+
+theorem chswReset_zero_deb (s : State) : (chswReset s 0).1.deb = {} := by
+  unfold chswReset
+  simp
+
+/-- `vbi_chsw_reset` looks at its second argument only in `if (identified == 0)` -/
+theorem chswReset_nonzero (s : State) (id : Nat) (h : id ≠ 0) : chswReset s id = chswReset s 1 := by
+  unfold chswReset
+  simp [h]
+
+/-! ## the two shapes of the cycle bookkeeping (`markChange`, `markDone`, `pending`) -/
+
+section marks
+variable (cfg : Cfg) (c : Carrier) (v : Nat) (s : State)
+
+theorem cycOf_setCyc_self (d : Deb) (k : Nat) : cycOf c (setCyc c d k) = k := by cases c <;> rfl
+theorem cycOf_setCyc_other (c' : Carrier) (d : Deb) (k : Nat) (h : c' ≠ c) : cycOf c' (setCyc c d k) = cycOf c' d := by
+  cases c <;> cases c' <;> first | rfl | exact absurd rfl h
+theorem cycOf_setAnn (c' : Carrier) (d : Deb) (k : Nat) : cycOf c' (setAnn c d k) = cycOf c' d := by
+  cases c <;> cases c' <;> rfl
+theorem annOf_setCyc (c' : Carrier) (d : Deb) (k : Nat) : annOf c' (setCyc c d k) = annOf c' d := by
+  cases c <;> cases c' <;> rfl
+theorem annOf_setAnn_self (d : Deb) (k : Nat) : annOf c (setAnn c d k) = k := by cases c <;> rfl
+theorem annOf_setAnn_other (c' : Carrier) (d : Deb) (k : Nat) (h : c' ≠ c) : annOf c' (setAnn c d k) = annOf c' d := by
+  cases c <;> cases c' <;> first | rfl | exact absurd rfl h
+
+theorem markDone_nuid : (markDone cfg c v s).net.nuid = s.net.nuid := by
+  unfold markDone; split <;> rfl
+theorem markDone_name : (markDone cfg c v s).net.name = s.net.name := by
+  unfold markDone; split <;> rfl
+theorem markDone_call : (markDone cfg c v s).net.call = s.net.call := by
+  unfold markDone; split <;> rfl
+theorem markDone_cniOf (c' : Carrier) : cniOf c' (markDone cfg c v s).net = cniOf c' s.net := by
+  unfold markDone; split
+  · rfl
+  · cases c' <;> rfl
+theorem markDone_cached : (markDone cfg c v s).cached = s.cached := by unfold markDone; split <;> rfl
+theorem markDone_chswcd : (markDone cfg c v s).chswcd = s.chswcd := by unfold markDone; split <;> rfl
+theorem markDone_mask : (markDone cfg c v s).mask = s.mask := by unfold markDone; split <;> rfl
+theorem markDone_time : (markDone cfg c v s).time = s.time := by unfold markDone; split <;> rfl
+theorem markDone_wssLast : (markDone cfg c v s).wssLast = s.wssLast := by unfold markDone; split <;> rfl
+theorem markDone_wssRep : (markDone cfg c v s).wssRep = s.wssRep := by unfold markDone; split <;> rfl
+theorem markDone_wssTime : (markDone cfg c v s).wssTime = s.wssTime := by unfold markDone; split <;> rfl
+theorem markDone_aspect : (markDone cfg c v s).aspect = s.aspect := by unfold markDone; split <;> rfl
+theorem markDone_aspectSource : (markDone cfg c v s).aspectSource = s.aspectSource := by unfold markDone; split <;> rfl
+theorem markDone_vpsPid : (markDone cfg c v s).vpsPid = s.vpsPid := by unfold markDone; split <;> rfl
+/-- right after the announcement nothing is pending on that carrier -/
+theorem markDone_not_pending : ¬ pending cfg c (markDone cfg c v s) := by
+  unfold pending markDone
+  cases cfg.perCarrier <;> simp [cycOf_setAnn, cycOf_setCyc_self]
+/-- in the shared-cycle shape nothing is pending on ANY carrier; in the per-carrier shape the others keep their state -/
+theorem markDone_pending_other (c' : Carrier) (h : c' ≠ c) :
+    pending cfg c' (markDone cfg c v s) → (cfg.perCarrier = true ∧ pending cfg c' s) := by
+  unfold pending markDone
+  cases cfg.perCarrier <;> simp [cycOf_setAnn, cycOf_setCyc_other _ _ _ _ h]
+theorem markDone_annOf_self (h : cfg.perCarrier = true) : annOf c (markDone cfg c v s).deb = v := by
+  simp [markDone, h, annOf_setAnn_self]
+theorem markDone_annOf_other (c' : Carrier) (h : c' ≠ c) : annOf c' (markDone cfg c v s).deb = annOf c' s.deb := by
+  unfold markDone; split
+  · simp [annOf_setAnn_other _ _ _ _ h, annOf_setCyc]
+  · rfl
+theorem markDone_net_cycle (h : cfg.perCarrier = true) : (markDone cfg c v s).net = s.net := by
+  simp [markDone, h]
+theorem markDone_cycle_shared (h : cfg.perCarrier = false) : (markDone cfg c v s).net.cycle = 2 := by
+  simp [markDone, h]
+
+theorem markChange_nuid : (markChange cfg c v s).net.nuid = s.net.nuid := by
+  unfold markChange; split <;> cases c <;> rfl
+theorem markChange_name : (markChange cfg c v s).net.name = s.net.name := by
+  unfold markChange; split <;> cases c <;> rfl
+theorem markChange_call : (markChange cfg c v s).net.call = s.net.call := by
+  unfold markChange; split <;> cases c <;> rfl
+theorem markChange_cniOf_self : cniOf c (markChange cfg c v s).net = v := by
+  unfold markChange; split <;> cases c <;> rfl
+theorem markChange_cniOf_other (c' : Carrier) (h : c' ≠ c) : cniOf c' (markChange cfg c v s).net = cniOf c' s.net := by
+  unfold markChange; split <;> cases c <;> cases c' <;> first | rfl | exact absurd rfl h
+theorem markChange_cached : (markChange cfg c v s).cached = s.cached := by unfold markChange; split <;> rfl
+theorem markChange_chswcd : (markChange cfg c v s).chswcd = s.chswcd := by unfold markChange; split <;> rfl
+theorem markChange_mask : (markChange cfg c v s).mask = s.mask := by unfold markChange; split <;> rfl
+theorem markChange_time : (markChange cfg c v s).time = s.time := by unfold markChange; split <;> rfl
+theorem markChange_wssLast : (markChange cfg c v s).wssLast = s.wssLast := by unfold markChange; split <;> rfl
+theorem markChange_wssRep : (markChange cfg c v s).wssRep = s.wssRep := by unfold markChange; split <;> rfl
+theorem markChange_wssTime : (markChange cfg c v s).wssTime = s.wssTime := by unfold markChange; split <;> rfl
+theorem markChange_aspect : (markChange cfg c v s).aspect = s.aspect := by unfold markChange; split <;> rfl
+theorem markChange_aspectSource : (markChange cfg c v s).aspectSource = s.aspectSource := by unfold markChange; split <;> rfl
+theorem markChange_vpsPid : (markChange cfg c v s).vpsPid = s.vpsPid := by unfold markChange; split <;> rfl
+theorem markChange_annOf (c' : Carrier) : annOf c' (markChange cfg c v s).deb = annOf c' s.deb := by
+  unfold markChange; split
+  · simp [annOf_setCyc]
+  · rfl
+/-- after a change the carrier waits for the repeat - in the per-carrier shape only if the new value is not the
+    one announced last (a deviating word that is over leaves nothing pending) -/
+theorem markChange_pending_self :
+    pending cfg c (markChange cfg c v s) ↔ (cfg.perCarrier = false ∨ v ≠ annOf c s.deb) := by
+  unfold pending markChange
+  cases cfg.perCarrier
+  · cases c <;> simp [setCni]
+  · by_cases h : v = annOf c s.deb <;> simp [cycOf_setCyc_self, h]
+theorem markChange_pending_other (c' : Carrier) (h : c' ≠ c) (hp : cfg.perCarrier = true) :
+    pending cfg c' (markChange cfg c v s) ↔ pending cfg c' s := by
+  simp [pending, markChange, hp, cycOf_setCyc_other _ _ _ _ h]
+theorem markChange_net_shared (h : cfg.perCarrier = false) :
+    (markChange cfg c v s).net = { setCni c s.net v with cycle := 1 } := by
+  simp [markChange, h]
+theorem markChange_net_per (h : cfg.perCarrier = true) : (markChange cfg c v s).net = setCni c s.net v := by
+  simp [markChange, h]
+
+end marks
+
 /-! ## the debounce skeleton, case by case -/
 
-theorem cniRx_change (lk : Lookup) (c : Carrier) (v : Nat) (s : State) (h : v ≠ cniOf c s.net) :
-    cniRx lk c v s = ({ s with net := { setCni c s.net v with cycle := 1 } }, []) := by
+theorem cniRx_change (cfg : Cfg) (c : Carrier) (v : Nat) (s : State) (h : v ≠ cniOf c s.net) :
+    cniRx cfg c v s = (markChange cfg c v s, []) := by
   simp [cniRx, h]
 
-theorem cniRx_idle (lk : Lookup) (c : Carrier) (v : Nat) (s : State) (h : v = cniOf c s.net) (h2 : s.net.cycle ≠ 1) :
-    cniRx lk c v s = (s, []) := by
+theorem cniRx_idle (cfg : Cfg) (c : Carrier) (v : Nat) (s : State) (h : v = cniOf c s.net) (h2 : ¬ pending cfg c s) :
+    cniRx cfg c v s = (s, []) := by
   simp [cniRx, h.symm, h2]
 
-theorem cniRx_same (lk : Lookup) (c : Carrier) (v : Nat) (s : State) (h : v = cniOf c s.net) (h2 : s.net.cycle = 1)
-    (h3 : (lk c v).1 = s.net.nuid) :
-    cniRx lk c v s = ({ s with net := { s.net with name := lkName lk c v, cycle := 2 } },
-                      [Ev.networkId { s.net with name := lkName lk c v }]) := by
+theorem cniRx_same (cfg : Cfg) (c : Carrier) (v : Nat) (s : State) (h : v = cniOf c s.net) (h2 : pending cfg c s)
+    (h3 : (cfg.lk c v).1 = s.net.nuid) :
+    cniRx cfg c v s = (markDone cfg c v { s with net := { s.net with name := lkName cfg c v } },
+                      [Ev.networkId { s.net with name := lkName cfg c v }]) := by
   simp [cniRx, announce, lkName, h.symm, h2, h3]
 
-theorem cniRx_first (lk : Lookup) (c : Carrier) (v : Nat) (s : State) (h : v = cniOf c s.net) (h2 : s.net.cycle = 1)
-    (h3 : (lk c v).1 ≠ s.net.nuid) (h4 : s.net.nuid = 0) :
-    cniRx lk c v s = ({ s with net := { s.net with name := lkName lk c v, nuid := (lk c v).1, cycle := 2 } },
-                      [Ev.network { s.net with name := lkName lk c v, nuid := (lk c v).1 },
-                       Ev.networkId { s.net with name := lkName lk c v, nuid := (lk c v).1 }]) := by
-  have h3' : (lk c v).1 ≠ 0 := by rw [h4] at h3; exact h3
+theorem cniRx_first (cfg : Cfg) (c : Carrier) (v : Nat) (s : State) (h : v = cniOf c s.net) (h2 : pending cfg c s)
+    (h3 : (cfg.lk c v).1 ≠ s.net.nuid) (h4 : s.net.nuid = 0) :
+    cniRx cfg c v s = (markDone cfg c v { s with net := { s.net with name := lkName cfg c v, nuid := (cfg.lk c v).1 } },
+                      [Ev.network { s.net with name := lkName cfg c v, nuid := (cfg.lk c v).1 },
+                       Ev.networkId { s.net with name := lkName cfg c v, nuid := (cfg.lk c v).1 }]) := by
+  have h3' : (cfg.lk c v).1 ≠ 0 := by rw [h4] at h3; exact h3
   simp [cniRx, announce, lkName, h.symm, h2, h3', h4]
 
-theorem cniRx_switch (lk : Lookup) (c : Carrier) (v : Nat) (s : State) (h : v = cniOf c s.net) (h2 : s.net.cycle = 1)
-    (h3 : (lk c v).1 ≠ s.net.nuid) (h4 : s.net.nuid ≠ 0) (h5 : (lk c v).1 ≠ 0) :
-    cniRx lk c v s =
-      ({ s with net := { s.net with name := lkName lk c v, nuid := (lk c v).1, cycle := 2 }, cached := [],
-                aspect := aspectReset, aspectSource := 0, wssLast := (0, 0), wssRep := 0, wssTime := 0, chswcd := 0 },
+/-- an identified station replaced by another one: by a known one (`id ≠ 0`) in either shape of the call, by ANY
+    CNI once the callers pass "identified" (F35 repaired) -/
+theorem cniRx_switch (cfg : Cfg) (c : Carrier) (v : Nat) (s : State) (h : v = cniOf c s.net) (h2 : pending cfg c s)
+    (h3 : (cfg.lk c v).1 ≠ s.net.nuid) (h4 : s.net.nuid ≠ 0) (h5 : cfg.chswIdent = true ∨ (cfg.lk c v).1 ≠ 0) :
+    cniRx cfg c v s =
+      (markDone cfg c v
+        { s with net := { s.net with name := lkName cfg c v, nuid := (cfg.lk c v).1 }, cached := [], aspect := aspectReset, aspectSource := 0, wssLast := (0, 0), wssRep := 0, wssTime := 0, chswcd := 0 },
        (if s.aspectSource > 0 then [Ev.aspect (chswAspect s.aspectSource)] else []) ++
-         [Ev.network { s.net with name := lkName lk c v, nuid := (lk c v).1 },
-          Ev.networkId { s.net with name := lkName lk c v, nuid := (lk c v).1 }]) := by
-  simp [cniRx, announce, lkName, chswReset, h.symm, h2, h3, h4, h5]
+         [Ev.network { s.net with name := lkName cfg c v, nuid := (cfg.lk c v).1 },
+          Ev.networkId { s.net with name := lkName cfg c v, nuid := (cfg.lk c v).1 }]) := by
+  have hid : (if cfg.chswIdent = true then 1 else (cfg.lk c v).1) ≠ 0 := by
+    rcases h5 with h5 | h5
+    · simp [h5]
+    · split <;> simp [h5]
+  simp [cniRx, announce, lkName, chswReset, hid, h.symm, h2, h3, h4]
 
-theorem cniRx_unknown (lk : Lookup) (c : Carrier) (v : Nat) (s : State) (h : v = cniOf c s.net) (h2 : s.net.cycle = 1)
-    (h4 : s.net.nuid ≠ 0) (h5 : (lk c v).1 = 0) :
-    cniRx lk c v s =
-      ({ s with net := { cycle := 2 }, cached := [],
-                aspect := aspectReset, aspectSource := 0, wssLast := (0, 0), wssRep := 0, wssTime := 0, chswcd := 0 },
+/-- F35, unrepaired call shape: an identified station replaced by a CNI missing from the table -/
+theorem cniRx_unknown (cfg : Cfg) (c : Carrier) (v : Nat) (s : State) (h : v = cniOf c s.net) (h2 : pending cfg c s)
+    (h4 : s.net.nuid ≠ 0) (h5 : (cfg.lk c v).1 = 0) (hI : cfg.chswIdent = false) :
+    cniRx cfg c v s =
+      (markDone cfg c v
+        { s with net := {}, deb := {}, cached := [], aspect := aspectReset, aspectSource := 0, wssLast := (0, 0), wssRep := 0, wssTime := 0, chswcd := 0 },
        [Ev.network {}] ++ (if s.aspectSource > 0 then [Ev.aspect (chswAspect s.aspectSource)] else []) ++
          [Ev.network {}, Ev.networkId {}]) := by
   have h3 : ¬ (0 = s.net.nuid) := fun e => h4 e.symm
-  simp [cniRx, announce, chswReset, h.symm, h2, h3, h4, h5]
+  simp [cniRx, announce, chswReset, h.symm, h2, h3, h4, h5, hI]
 
 /-! ## what the debounce does to the stored CNIs -/
 
@@ -80,54 +199,83 @@ theorem cniOf_setCni_other (c c' : Carrier) (n : Network) (v : Nat) (h : c' ≠ 
 theorem cniOf_cycle (c : Carrier) (n : Network) (k : Nat) : cniOf c { n with cycle := k } = cniOf c n := by
   cases c <;> rfl
 
-theorem cniOf_name_cycle (c : Carrier) (n : Network) (nm : List Nat) (k : Nat) :
-    cniOf c { n with name := nm, cycle := k } = cniOf c n := by
+theorem cniOf_name (c : Carrier) (n : Network) (nm : List Nat) : cniOf c { n with name := nm } = cniOf c n := by
   cases c <;> rfl
 
-theorem cniOf_name_nuid_cycle (c : Carrier) (n : Network) (nm : List Nat) (i k : Nat) :
-    cniOf c { n with name := nm, nuid := i, cycle := k } = cniOf c n := by
+theorem cniOf_name_nuid (c : Carrier) (n : Network) (nm : List Nat) (i : Nat) :
+    cniOf c { n with name := nm, nuid := i } = cniOf c n := by
   cases c <;> rfl
 
-theorem cniOf_empty (c : Carrier) (k : Nat) : cniOf c { cycle := k } = 0 := by
+theorem cniOf_empty (c : Carrier) : cniOf c {} = 0 := by
   cases c <;> rfl
+
+/-- the case split every lemma about one debounce step uses -/
+theorem cniRx_cases (cfg : Cfg) (c : Carrier) (v : Nat) (s : State) (P : State × List Ev → Prop)
+    (hchange : v ≠ cniOf c s.net → P (markChange cfg c v s, []))
+    (hidle : v = cniOf c s.net → ¬ pending cfg c s → P (s, []))
+    (hsame : v = cniOf c s.net → pending cfg c s → (cfg.lk c v).1 = s.net.nuid →
+      P (markDone cfg c v { s with net := { s.net with name := lkName cfg c v } },
+         [Ev.networkId { s.net with name := lkName cfg c v }]))
+    (hfirst : v = cniOf c s.net → pending cfg c s → (cfg.lk c v).1 ≠ s.net.nuid → s.net.nuid = 0 →
+      P (markDone cfg c v { s with net := { s.net with name := lkName cfg c v, nuid := (cfg.lk c v).1 } },
+         [Ev.network { s.net with name := lkName cfg c v, nuid := (cfg.lk c v).1 },
+          Ev.networkId { s.net with name := lkName cfg c v, nuid := (cfg.lk c v).1 }]))
+    (hswitch : v = cniOf c s.net → pending cfg c s → (cfg.lk c v).1 ≠ s.net.nuid → s.net.nuid ≠ 0 →
+      (cfg.chswIdent = true ∨ (cfg.lk c v).1 ≠ 0) →
+      P (markDone cfg c v
+          { s with net := { s.net with name := lkName cfg c v, nuid := (cfg.lk c v).1 }, cached := [], aspect := aspectReset, aspectSource := 0, wssLast := (0, 0), wssRep := 0, wssTime := 0, chswcd := 0 },
+         (if s.aspectSource > 0 then [Ev.aspect (chswAspect s.aspectSource)] else []) ++
+           [Ev.network { s.net with name := lkName cfg c v, nuid := (cfg.lk c v).1 },
+            Ev.networkId { s.net with name := lkName cfg c v, nuid := (cfg.lk c v).1 }]))
+    (hunknown : v = cniOf c s.net → pending cfg c s → s.net.nuid ≠ 0 → (cfg.lk c v).1 = 0 → cfg.chswIdent = false →
+      P (markDone cfg c v
+          { s with net := {}, deb := {}, cached := [], aspect := aspectReset, aspectSource := 0, wssLast := (0, 0), wssRep := 0, wssTime := 0, chswcd := 0 },
+         [Ev.network {}] ++ (if s.aspectSource > 0 then [Ev.aspect (chswAspect s.aspectSource)] else []) ++
+           [Ev.network {}, Ev.networkId {}])) :
+    P (cniRx cfg c v s) := by
+  by_cases h : v = cniOf c s.net
+  · by_cases h2 : pending cfg c s
+    · by_cases h3 : (cfg.lk c v).1 = s.net.nuid
+      · rw [cniRx_same cfg c v s h h2 h3]; exact hsame h h2 h3
+      · by_cases h4 : s.net.nuid = 0
+        · rw [cniRx_first cfg c v s h h2 h3 h4]; exact hfirst h h2 h3 h4
+        · by_cases h5 : (cfg.lk c v).1 = 0
+          · cases hI : cfg.chswIdent
+            · rw [cniRx_unknown cfg c v s h h2 h4 h5 hI]; exact hunknown h h2 h4 h5 hI
+            · rw [cniRx_switch cfg c v s h h2 h3 h4 (Or.inl hI)]; exact hswitch h h2 h3 h4 (Or.inl hI)
+          · rw [cniRx_switch cfg c v s h h2 h3 h4 (Or.inr h5)]; exact hswitch h h2 h3 h4 (Or.inr h5)
+    · rw [cniRx_idle cfg c v s h h2]; exact hidle h h2
+  · rw [cniRx_change cfg c v s h]; exact hchange h
 
 /-- after a reception of `v` on carrier `c` the stored value of `c` is `v`, or everything was wiped -/
-theorem cniRx_cni_self (lk : Lookup) (c : Carrier) (v : Nat) (s : State) :
-    cniOf c (cniRx lk c v s).1.net = v ∨ cniOf c (cniRx lk c v s).1.net = 0 := by
-  by_cases h : v = cniOf c s.net
-  · by_cases h2 : s.net.cycle = 1
-    · by_cases h3 : (lk c v).1 = s.net.nuid
-      · rw [cniRx_same lk c v s h h2 h3]; left; simp [cniOf_name_cycle, h]
-      · by_cases h4 : s.net.nuid = 0
-        · rw [cniRx_first lk c v s h h2 h3 h4]; left; simp [cniOf_name_nuid_cycle, h]
-        · by_cases h5 : (lk c v).1 = 0
-          · rw [cniRx_unknown lk c v s h h2 h4 h5]; right; simp [cniOf_empty]
-          · rw [cniRx_switch lk c v s h h2 h3 h4 h5]; left; simp [cniOf_name_nuid_cycle, h]
-    · rw [cniRx_idle lk c v s h h2]; left; exact h.symm
-  · rw [cniRx_change lk c v s h]; left; simp [cniOf_cycle, cniOf_setCni_self]
+theorem cniRx_cni_self (cfg : Cfg) (c : Carrier) (v : Nat) (s : State) :
+    cniOf c (cniRx cfg c v s).1.net = v ∨ cniOf c (cniRx cfg c v s).1.net = 0 := by
+  apply cniRx_cases cfg c v s (fun r => cniOf c r.1.net = v ∨ cniOf c r.1.net = 0)
+  · intro _; left; exact markChange_cniOf_self cfg c v s
+  · intro h _; left; exact h.symm
+  · intro h _ _; left; simp only [markDone_cniOf, cniOf_name]; exact h.symm
+  · intro h _ _ _; left; simp only [markDone_cniOf, cniOf_name_nuid]; exact h.symm
+  · intro h _ _ _ _; left; simp only [markDone_cniOf, cniOf_name_nuid]; exact h.symm
+  · intro _ _ _ _ _; right; simp only [markDone_cniOf, cniOf_empty]
 
 /-- a reception on carrier `c` leaves the stored value of another carrier alone, or everything was wiped -/
-theorem cniRx_cni_other (lk : Lookup) (c c' : Carrier) (v : Nat) (s : State) (hc : c' ≠ c) :
-    cniOf c' (cniRx lk c v s).1.net = cniOf c' s.net ∨ cniOf c' (cniRx lk c v s).1.net = 0 := by
-  by_cases h : v = cniOf c s.net
-  · by_cases h2 : s.net.cycle = 1
-    · by_cases h3 : (lk c v).1 = s.net.nuid
-      · rw [cniRx_same lk c v s h h2 h3]; left; simp [cniOf_name_cycle]
-      · by_cases h4 : s.net.nuid = 0
-        · rw [cniRx_first lk c v s h h2 h3 h4]; left; simp [cniOf_name_nuid_cycle]
-        · by_cases h5 : (lk c v).1 = 0
-          · rw [cniRx_unknown lk c v s h h2 h4 h5]; right; simp [cniOf_empty]
-          · rw [cniRx_switch lk c v s h h2 h3 h4 h5]; left; simp [cniOf_name_nuid_cycle]
-    · rw [cniRx_idle lk c v s h h2]; left; rfl
-  · rw [cniRx_change lk c v s h]; left; simp [cniOf_cycle, cniOf_setCni_other _ _ _ _ hc]
+theorem cniRx_cni_other (cfg : Cfg) (c c' : Carrier) (v : Nat) (s : State) (hc : c' ≠ c) :
+    cniOf c' (cniRx cfg c v s).1.net = cniOf c' s.net ∨ cniOf c' (cniRx cfg c v s).1.net = 0 := by
+  apply cniRx_cases cfg c v s (fun r => cniOf c' r.1.net = cniOf c' s.net ∨ cniOf c' r.1.net = 0)
+  · intro _; left; exact markChange_cniOf_other cfg c v s c' hc
+  · intro _ _; left; rfl
+  · intro _ _ _; left; simp only [markDone_cniOf, cniOf_name]
+  · intro _ _ _ _; left; simp only [markDone_cniOf, cniOf_name_nuid]
+  · intro _ _ _ _ _; left; simp only [markDone_cniOf, cniOf_name_nuid]
+  · intro _ _ _ _ _; right; simp only [markDone_cniOf, cniOf_empty]
 
 /-! ## lines and the debounce -/
 
-theorem rxVps_eq (lk : Lookup) (s : State) (b : Buf) :
-    (rxVps lk s b).1 = { (cniRx lk .vps (decodeVpsCni b) s).1 with vpsPid := (rxVps lk s b).1.vpsPid } ∧
-    ∃ extra, (rxVps lk s b).2 = (cniRx lk .vps (decodeVpsCni b) s).2 ++ extra ∧ ∀ e ∈ extra, Ev.isExtra e = true := by
+theorem rxVps_eq (cfg : Cfg) (s : State) (b : Buf) :
+    (rxVps cfg s b).1 = { (cniRx cfg .vps (decodeVpsCni b) s).1 with vpsPid := (rxVps cfg s b).1.vpsPid } ∧
+    ∃ extra, (rxVps cfg s b).2 = (cniRx cfg .vps (decodeVpsCni b) s).2 ++ extra ∧ ∀ e ∈ extra, Ev.isExtra e = true := by
   by_cases h1 : decodeVpsCni b = s.net.cniVps
-  · by_cases h2 : s.net.cycle = 1
+  · by_cases h2 : pending cfg .vps s
     · simp only [rxVps, cniRx, cniOf, h1, h2, ne_eq, not_true_eq_false, if_false, if_true]
       split
       · split
@@ -135,7 +283,7 @@ theorem rxVps_eq (lk : Lookup) (s : State) (b : Buf) :
         · exact ⟨rfl, [_], rfl, by simp [Ev.isExtra]⟩
       · exact ⟨rfl, [], by simp, by simp⟩
     · simp [rxVps, cniRx, cniOf, h1, h2]
-  · simp [rxVps, cniRx, cniOf, setCni, h1]
+  · simp [rxVps, cniRx, cniOf, h1]
 
 /-- the part of `parse_8_30` after `parse_bsd` -/
 def tail830 (b : Buf) (designation : Nat) (s : State) (evs : List Ev) : State × List Ev :=
@@ -167,11 +315,11 @@ theorem tail830_eq (b : Buf) (d : Nat) (s : State) (evs : List Ev) :
       · exact ⟨rfl, [_], rfl, by simp [Ev.isExtra]⟩
     · exact ⟨rfl, [], by simp, by simp⟩
 
-theorem rxTtx_eq (lk : Lookup) (s : State) (b : Buf) :
-    (rxTtx lk s b).1 = (cniStep lk s (ttxCni s.mask b)).1 ∧
-    ∃ extra, (rxTtx lk s b).2 = (cniStep lk s (ttxCni s.mask b)).2 ++ extra ∧ ∀ e ∈ extra, Ev.isExtra e = true := by
-  have nil : (s, ([] : List Ev)).1 = (cniStep lk s none).1 ∧
-      ∃ extra, (s, ([] : List Ev)).2 = (cniStep lk s none).2 ++ extra ∧ ∀ e ∈ extra, Ev.isExtra e = true :=
+theorem rxTtx_eq (cfg : Cfg) (s : State) (b : Buf) :
+    (rxTtx cfg s b).1 = (cniStep cfg s (ttxCni s.mask b)).1 ∧
+    ∃ extra, (rxTtx cfg s b).2 = (cniStep cfg s (ttxCni s.mask b)).2 ++ extra ∧ ∀ e ∈ extra, Ev.isExtra e = true := by
+  have nil : (s, ([] : List Ev)).1 = (cniStep cfg s none).1 ∧
+      ∃ extra, (s, ([] : List Ev)).2 = (cniStep cfg s none).2 ++ extra ∧ ∀ e ∈ extra, Ev.isExtra e = true :=
     ⟨rfl, [], rfl, by simp⟩
   unfold rxTtx ttxCni
   cases h0 : unham16p (bt b 0) (bt b 1) with
@@ -212,38 +360,34 @@ theorem rxTtx_eq (lk : Lookup) (s : State) (b : Buf) :
 theorem extra_not_network (e : Ev) (h : Ev.isExtra e = true) : e.isNetwork = false ∧ e.isNetworkId = false := by
   cases e <;> simp_all [Ev.isExtra, Ev.isNetwork, Ev.isNetworkId]
 
-theorem cniRx_mask (lk : Lookup) (c : Carrier) (v : Nat) (s : State) : (cniRx lk c v s).1.mask = s.mask := by
-  simp only [cniRx, announce, chswReset]
-  repeat' split
-  all_goals simp
+theorem cniRx_mask (cfg : Cfg) (c : Carrier) (v : Nat) (s : State) : (cniRx cfg c v s).1.mask = s.mask := by
+  apply cniRx_cases cfg c v s (fun r => r.1.mask = s.mask) <;> intros <;> simp [markDone_mask, markChange_mask]
 
-theorem cniRx_time (lk : Lookup) (c : Carrier) (v : Nat) (s : State) : (cniRx lk c v s).1.time = s.time := by
-  simp only [cniRx, announce, chswReset]
-  repeat' split
-  all_goals simp
+theorem cniRx_time (cfg : Cfg) (c : Carrier) (v : Nat) (s : State) : (cniRx cfg c v s).1.time = s.time := by
+  apply cniRx_cases cfg c v s (fun r => r.1.time = s.time) <;> intros <;> simp [markDone_time, markChange_time]
 
-theorem cniStep_mask (lk : Lookup) (s : State) (o : Option (Carrier × Nat)) : (cniStep lk s o).1.mask = s.mask := by
+theorem cniStep_mask (cfg : Cfg) (s : State) (o : Option (Carrier × Nat)) : (cniStep cfg s o).1.mask = s.mask := by
   cases o with
   | none => rfl
-  | some p => exact cniRx_mask lk p.1 p.2 s
+  | some p => exact cniRx_mask cfg p.1 p.2 s
 
-theorem cniStep_time (lk : Lookup) (s : State) (o : Option (Carrier × Nat)) : (cniStep lk s o).1.time = s.time := by
+theorem cniStep_time (cfg : Cfg) (s : State) (o : Option (Carrier × Nat)) : (cniStep cfg s o).1.time = s.time := by
   cases o with
   | none => rfl
-  | some p => exact cniRx_time lk p.1 p.2 s
+  | some p => exact cniRx_time cfg p.1 p.2 s
 
 /-- a VPS or Teletext line is the debounce step of the reception it constitutes, plus PROG_ID / LOCAL_TIME events -/
 theorem rxLine_cniStep (cfg : Cfg) (t : Nat) (s : State) (l : Line) (h : (∃ b, l = .vps b) ∨ (∃ b, l = .ttx b)) :
-    (rxLine cfg t s l).1.net = (cniStep cfg.lk s (lineCni s.mask l)).1.net ∧
-    (rxLine cfg t s l).1.cached = (cniStep cfg.lk s (lineCni s.mask l)).1.cached ∧
-    (rxLine cfg t s l).1.chswcd = (cniStep cfg.lk s (lineCni s.mask l)).1.chswcd ∧
+    (rxLine cfg t s l).1.net = (cniStep cfg s (lineCni s.mask l)).1.net ∧
+    (rxLine cfg t s l).1.cached = (cniStep cfg s (lineCni s.mask l)).1.cached ∧
+    (rxLine cfg t s l).1.chswcd = (cniStep cfg s (lineCni s.mask l)).1.chswcd ∧
     (rxLine cfg t s l).1.mask = s.mask ∧ (rxLine cfg t s l).1.time = s.time ∧
-    (rxLine cfg t s l).1.wssLast = (cniStep cfg.lk s (lineCni s.mask l)).1.wssLast ∧
-    (rxLine cfg t s l).1.wssRep = (cniStep cfg.lk s (lineCni s.mask l)).1.wssRep ∧
-    (rxLine cfg t s l).1.wssTime = (cniStep cfg.lk s (lineCni s.mask l)).1.wssTime ∧
-    ∃ extra, (rxLine cfg t s l).2 = (cniStep cfg.lk s (lineCni s.mask l)).2 ++ extra ∧ ∀ e ∈ extra, Ev.isExtra e = true := by
+    (rxLine cfg t s l).1.wssLast = (cniStep cfg s (lineCni s.mask l)).1.wssLast ∧
+    (rxLine cfg t s l).1.wssRep = (cniStep cfg s (lineCni s.mask l)).1.wssRep ∧
+    (rxLine cfg t s l).1.wssTime = (cniStep cfg s (lineCni s.mask l)).1.wssTime ∧
+    ∃ extra, (rxLine cfg t s l).2 = (cniStep cfg s (lineCni s.mask l)).2 ++ extra ∧ ∀ e ∈ extra, Ev.isExtra e = true := by
   rcases h with ⟨b, rfl⟩ | ⟨b, rfl⟩
-  · have h := rxVps_eq cfg.lk s b
+  · have h := rxVps_eq cfg s b
     simp only [rxLine, lineCni, cniStep]
     refine ⟨?_, ?_, ?_, ?_, ?_, ?_, ?_, ?_, h.2⟩
     · rw [h.1]
@@ -254,7 +398,7 @@ theorem rxLine_cniStep (cfg : Cfg) (t : Nat) (s : State) (l : Line) (h : (∃ b,
     · rw [h.1]
     · rw [h.1]
     · rw [h.1]
-  · have h := rxTtx_eq cfg.lk s b
+  · have h := rxTtx_eq cfg s b
     simp only [rxLine, lineCni]
     refine ⟨?_, ?_, ?_, ?_, ?_, ?_, ?_, ?_, h.2⟩
     · rw [h.1]
@@ -265,6 +409,16 @@ theorem rxLine_cniStep (cfg : Cfg) (t : Nat) (s : State) (l : Line) (h : (∃ b,
     · rw [h.1]
     · rw [h.1]
     · rw [h.1]
+
+theorem rxLine_cniStep_deb (cfg : Cfg) (t : Nat) (s : State) (l : Line) (h : (∃ b, l = .vps b) ∨ (∃ b, l = .ttx b)) :
+    (rxLine cfg t s l).1.deb = (cniStep cfg s (lineCni s.mask l)).1.deb := by
+  rcases h with ⟨b, rfl⟩ | ⟨b, rfl⟩
+  · have h := rxVps_eq cfg s b
+    simp only [rxLine, lineCni, cniStep]
+    rw [h.1]
+  · have h := rxTtx_eq cfg s b
+    simp only [rxLine, lineCni]
+    rw [h.1]
 
 /-- a page line stores the page or does nothing -/
 theorem rxLine_page (cfg : Cfg) (t : Nat) (s : State) (pgno : Nat) :
